@@ -1,6 +1,7 @@
 package cluster
 
 import (
+	"bytes"
 	"time"
 
 	cs "github.com/lianxiangcloud/linkchain/consensus"
@@ -163,6 +164,11 @@ func (b *byzActor) voteAt(h *Node, rs *cstypes.RoundState, idx int) {
 				}
 			}
 		}
+	case "catalogue":
+		// C02: proposes catalogue-invalid blocks at its turns; otherwise silent
+		if bytes.Equal(rs.Validators.GetProposer().Address, b.n.key.Address()) && rs.Step <= cstypes.RoundStepPropose && rs.Proposal == nil {
+			b.catalogueTurn(h, rs)
+		}
 	case "equivocate-proposals":
 		b.proposeAt(h, rs, idx)
 		// and votes for whatever each node has as proposal
@@ -186,3 +192,5 @@ func (b *byzActor) voteAt(h *Node, rs *cstypes.RoundState, idx int) {
 func keyOf(node int, H uint64, R int, typ byte, bk string) string {
 	return string(rune(node)) + "|" + string(rune(H)) + "|" + string(rune(R)) + "|" + string(rune(typ)) + "|" + bk
 }
+
+func voteMsg(v *types.Vote) cs.ConsensusMessage { return &cs.VoteMessage{Vote: v} }
